@@ -240,6 +240,7 @@ func c19Run(c *mon.Ctx, g *model.Gen, w *c19World, ops []c19Op, tag string) int 
 	var tokEnv *refcose.Envelope
 	var lastOwn []byte
 	replaced := false
+	var produced [][2][]byte
 	var trace []string
 	executed := 0
 
@@ -434,6 +435,7 @@ func c19Run(c *mon.Ctx, g *model.Gen, w *c19World, ops []c19Op, tag string) int 
 				envKind, tok = envToken, append([]byte{}, out...)
 				tokEnv, _ = refcose.Parse(tok)
 				lastOwn = tok
+				produced = append(produced, [2][]byte{out, tok})
 				if tokEnv != nil && tokEnv.Arr != nil {
 					enc, _ := psatoken.EncodeClaimsToCBOR(attached)
 					if !bytes.Equal(enc, tokEnv.Payload) {
@@ -489,11 +491,12 @@ func c19Run(c *mon.Ctx, g *model.Gen, w *c19World, ops []c19Op, tag string) int 
 				envKind, tok = envToken, append([]byte{}, in...)
 				tokEnv, _ = refcose.Parse(tok)
 				attached = e.Claims
-				if e.Claims == nil || e.Claims == before {
-					fail("decode-ok-claims-not-replaced/"+op.arg, "UnmarshalCOSE succeeded but did not attach freshly decoded claims", nil)
+				if e.Claims == nil {
+					fail("decode-ok-without-claims/"+op.arg, "UnmarshalCOSE succeeded but no claims are attached", nil)
 					ok = false
 					return
 				}
+				_ = before // (whether the library allocates a new claims object or refills the old one is its business; the CONTENT is checked below)
 				if tokEnv != nil && tokEnv.Arr != nil {
 					ref, derr := psatoken.DecodeClaimsFromCBOR(tokEnv.Payload)
 					if derr != nil {
@@ -502,7 +505,9 @@ func c19Run(c *mon.Ctx, g *model.Gen, w *c19World, ops []c19Op, tag string) int 
 						return
 					}
 					g1, g2 := obs.Observe(e.Claims), obs.Observe(ref)
-					if d := model.ObsDiff(&g2, &g1); d != "" {
+					enc1, _ := psatoken.EncodeClaimsToCBOR(e.Claims)
+					enc2, _ := psatoken.EncodeClaimsToCBOR(ref)
+					if d := model.ObsDiff(&g2, &g1); d != "" || !bytes.Equal(enc1, enc2) || fmt.Sprintf("%T", e.Claims) != fmt.Sprintf("%T", ref) {
 						fail("decoded-claims-not-from-payload/"+op.arg, "claims attached by UnmarshalCOSE differ from the decoding of the token's payload: "+d, nil)
 						ok = false
 						return
@@ -525,6 +530,14 @@ func c19Run(c *mon.Ctx, g *model.Gen, w *c19World, ops []c19Op, tag string) int 
 			return executed
 		}
 	}
+	// every token the history produced is still, byte for byte, what was returned
+	for _, pt := range produced {
+		if !bytes.Equal(pt[0], pt[1]) {
+			fail("returned-token-changed-later", "a token returned by a sign operation was overwritten by a later operation on the same Evidence", map[string]any{"returned_then": mon.Hex(pt[1]), "same_slice_now": mon.Hex(pt[0])})
+			return executed
+		}
+	}
+	c.Add("produced-tokens-rechecked", int64(len(produced)))
 	c.Count("histories-completed")
 	return executed
 }
